@@ -364,6 +364,13 @@ def opStrict2 : P String := do
   eol
   pure s!"ok {b2s (strictOkB row out (first == 1))}"
 
+/-- `fillzero m vals…` → `ok v…` (`incomplete_valuation_profile_to_complete_valuation_profile` on one row) -/
+def opFillZero : P String := do
+  let m ← nat
+  let vals ← rep optRat m
+  eol
+  pure (joinS ("ok" :: (fillZero vals).map showRat))
+
 /-- `complete m row… out… mode` → `ok <wfIncompleteB row> <completeOkB row out mode>` -/
 def opComplete : P String := do
   let m ← nat
@@ -461,6 +468,7 @@ def dispatch : String → Option (P String)
   | "ordinal" => some opOrdinal
   | "strictify" => some opStrictify
   | "strict2" => some opStrict2
+  | "fillzero" => some opFillZero
   | "complete" => some opComplete
   | "consistent" => some opConsistent
   | "generate" => some opGenerate
